@@ -9,6 +9,8 @@ from typing import Any
 PROPERTY_PROFILE = {
     "C19": "race",
     "C03": "ctx",
+    "C04": "dml",
+    "C07": "fail",
 }
 
 
